@@ -267,7 +267,8 @@ def check(ctx, rep):
             n_w += 1
 
             def rp(call, target):
-                if isinstance(call.func, ast.Attribute) and call.func.attr in ("finish_request", "wrap_socket", "shutdown_request", "handle_error"):
+                # anything the worker calls on the server object can fail (peek on a reset connection, handshake, handler, ...)
+                if isinstance(call.func, ast.Attribute) and dotted(call.func.value) == "self":
                     return ["OSError"]
                 return []
             w = Walker(prog, ctx.resolver, raise_points=rp)
@@ -287,6 +288,8 @@ def check(ctx, rep):
                     if "os._exit" not in names:
                         problems.add("a path through the child process does not end in os._exit (the child would return into the accept loop and serve as a second server)")
                 elif role == "parent":
+                    if p.kind == "raise":
+                        continue  # a failure in the parent's bookkeeping is reported by socketserver's accept loop
                     n_parent += 1
                     if not any(n.endswith("active_children.add") for n in names):
                         problems.add("the parent does not record the child pid (finished workers are never reaped)")
@@ -306,7 +309,7 @@ def check(ctx, rep):
             n_w += 1
 
             def rp2(call, target):
-                if isinstance(call.func, ast.Attribute) and call.func.attr in ("finish_request", "wrap_socket"):
+                if isinstance(call.func, ast.Attribute) and dotted(call.func.value) == "self" and call.func.attr not in ("handle_error", "shutdown_request"):
                     return ["OSError", "ValueError"]
                 return []
             w = Walker(prog, ctx.resolver, raise_points=rp2)
